@@ -622,9 +622,15 @@ func toDeleteNotification(n *pb.Notification, timestamp int64) *pb.Notification 
 	case n.GetAtomic():
 		d.Delete = []*pb.Path{{Elem: prefix.GetElem(), Element: prefix.GetElement()}}
 	case len(prefix.GetElem()) > 0 || len(path.GetElem()) > 0:
-		d.Delete = []*pb.Path{{Elem: append(prefix.GetElem(), path.GetElem()...)}}
+		// Copy: appending to the stored prefix's slice would write into a backing
+		// array that other notifications sharing the prefix also append to.
+		elems := make([]*pb.PathElem, 0, len(prefix.GetElem())+len(path.GetElem()))
+		elems = append(append(elems, prefix.GetElem()...), path.GetElem()...)
+		d.Delete = []*pb.Path{{Elem: elems}}
 	default:
-		d.Delete = []*pb.Path{{Element: append(prefix.GetElement(), path.GetElement()...)}}
+		elements := make([]string, 0, len(prefix.GetElement())+len(path.GetElement()))
+		elements = append(append(elements, prefix.GetElement()...), path.GetElement()...)
+		d.Delete = []*pb.Path{{Element: elements}}
 	}
 	return d
 }
